@@ -189,6 +189,24 @@ Finalize(agg, ir, p) ==
 
 AggregateSem(agg, irs, p) == Finalize(agg, Combine(agg, irs, p.simple, p.reindexBlockwise, p.nanKeepsNaN), p)
 
+\* ------------------------------------------------------------ blockwise strategy
+(* _reduce_blockwise on one block (method="blockwise", and the eager path): the   *)
+(* whole reduction is done by the engine on the block (agg.numpy), then masked by *)
+(* the counter when min_count > 0.  The block lists its groups sorted or in order *)
+(* of appearance (p.sort); the code of the missing label travels as a group.      *)
+BlockwiseSem(agg, vals, codes, p) ==
+  LET gs == IF p.sort THEN SortInts(Dedup(codes)) ELSE Dedup(codes)
+      kw == [ddof |-> agg.ddof, q |-> <<1, 2>>]
+  IN [groups |-> gs,
+      result |-> [k \in 1..Len(gs) |->
+                    LET pos == Positions(codes, gs[k])
+                        mem == Pick(vals, pos)
+                    IN IF agg.minCount > 0 /\ CountNotNull(mem) < agg.minCount
+                       THEN (IF agg.userFill.some THEN agg.userFill.v ELSE Unspec)
+                       ELSE IF ~Specified(agg.name, mem) THEN Unspec
+                       ELSE IF IsArgFunc(agg.name) THEN I(p.start + pos[RefReduce(agg.name, mem, kw)[1]] - 1)
+                       ELSE RefReduce(agg.name, mem, kw)]]
+
 \* IR equality up to unspecified slots, as label -> tuple maps over the
 \* labels the specification predicts
 IRMatches(exp, got) ==
